@@ -36,6 +36,15 @@ def check(ctx) -> None:
     r142(ctx)
     r143(ctx)
     r145(ctx)
+    from . import c06
+    before = len(ctx.rules)
+    c06.r68(ctx)
+    r = ctx.rules[before]
+    r.id = 'R14.6'
+    r.title = 'a message in transit never waits for a lock its own task ' \
+              'holds (= R6.8)'
+    for i in r.instances:
+        i.rule = 'R14.6'
     from . import c04
     before = len(ctx.rules)
     c04.r41(ctx)
@@ -133,6 +142,22 @@ def r142(ctx) -> None:
     if f is None:
         raise AnchorError('append_messages vanished')
     found = False
+    # the storage step must stay inside the command's task: shield() /
+    # create_task() let it finish AFTER the rollback has run
+    detached = [c for c in ast.walk(f.node) if isinstance(c, ast.Call)
+                and call_name(c) in ('shield', 'create_task',
+                                     'ensure_future', 'gather')]
+    if detached:
+        R.fail(f, detached[0], 'append_messages: MULTIAPPEND prefix is '
+               'undone when a later message fails',
+               f'`{txt(detached[0])[:60]}` detaches the storage step from '
+               f'the command: when the command is cancelled while an '
+               f'append waits for the mailbox lock, CancelledError reaches '
+               f'append_messages, the rollback deletes the UIDs collected '
+               f'so far — and the shielded append then completes and '
+               f'stores its message: a failed MULTIAPPEND leaves one '
+               f'message behind')
+        return
     for loop in [x for x in walk_local(f.node)
                  if isinstance(x, (ast.For, ast.AsyncFor))]:
         apps = [c for s in loop.body for c in calls_in(s, 'append')
